@@ -2,7 +2,7 @@ from .core import BASE_TRUST
 
 META = {
     "category": "proof",
-    "text": "Lean 4 theorems: on comparable sort-key columns (numbers with exact float reading, datetimes, text, NULLs) the row comparison handed to sort.Sort equals the lexicographic order of per-column keys in a strict total order, hence is a strict weak order (irreflexive, transitive, ties transitive), with ASC/DESC and NULLS FIRST/LAST; OFFSET = drop max(n,0); LIMIT = take; WITH TIES = take k ++ takeWhile (equivalent to the last kept row); LIMIT is always a prefix; NaN percentage refused; the reference sort orderBy is a sorted permutation, EVERY sorted permutation carries the reference's key sequence (sorted_perm_keys_unique), EquivalentTo is equality of keys (equivalent_iff_keys_equal) and OFFSET / LIMIT / WITH TIES cut the same keys out of every sorted permutation (cut_keys_unique). Model tied to /repo by differential correspondence through SQL: the implementation's ORDER BY output is checked sorted by the model's comparison (ties free), and OFFSET/LIMIT/PERCENT/WITH TIES results are compared exactly against the model applied to that order; the query in front of ORDER BY varies (DISTINCT, analytic functions with their own ORDER BY / PARTITION BY, GROUP BY, derived table, WHERE), cut positions range over the whole table, and LIMIT p PERCENT is compared on a dense (row count, percentage) grid",
+    "text": "Lean 4 theorems (the comparison functions SortValue.Less, SortValue.EquivalentTo and the loop body of SortValues.Less are TRANSLATED from sort_value.go on every run by extract/sortfacts and proved equal to the model's less / equiv / rowsLess for all sort values: gen_sortLess_eq_model, gen_sortEquiv_eq_model, gen_rowsLess_step; only the --strict-equal prefix is left out, its text compared with a reviewed one): on comparable sort-key columns (numbers with exact float reading, datetimes, text, NULLs) the row comparison handed to sort.Sort equals the lexicographic order of per-column keys in a strict total order, hence is a strict weak order (irreflexive, transitive, ties transitive), with ASC/DESC and NULLS FIRST/LAST; OFFSET = drop max(n,0); LIMIT = take; WITH TIES = take k ++ takeWhile (equivalent to the last kept row); LIMIT is always a prefix; NaN percentage refused; the reference sort orderBy is a sorted permutation, EVERY sorted permutation carries the reference's key sequence (sorted_perm_keys_unique), EquivalentTo is equality of keys (equivalent_iff_keys_equal) and OFFSET / LIMIT / WITH TIES cut the same keys out of every sorted permutation (cut_keys_unique). Model tied to /repo by differential correspondence through SQL: the implementation's ORDER BY output is checked sorted by the model's comparison (ties free), and OFFSET/LIMIT/PERCENT/WITH TIES results are compared exactly against the model applied to that order; the query in front of ORDER BY varies (DISTINCT, analytic functions with their own ORDER BY / PARTITION BY, GROUP BY, derived table, WHERE), cut positions range over the whole table, and LIMIT p PERCENT is compared on a dense (row count, percentage) grid",
     "design_ref": "DESIGN.md section 5, C07",
     "note": "trusted: Lean kernel; harness + driver; sort.Sort's contract (sorted permutation for a strict weak order) is assumed, the permutation part is checked directly on every output; coercion profiles; the PERCENT count uses the model's float arithmetic (validated by C06's arith stream)",
     "technique": "Lean 4 machine-checked proof (order isomorphism to a lexicographic key order; list lemmas for the cuts) + differential correspondence with the Go implementation",
@@ -15,6 +15,7 @@ def run(run):
         "sort.Sort returns a permutation sorted w.r.t. Less when Less is a strict weak order (Go stdlib contract); permutation re-checked on every output",
         "domain of the order theorems: per sort column all numbers (integers exactly representable as float64), or all datetimes within the UnixNano range, or all text, plus NULLs - as in the property; mixed integers beyond 2^53 with floats are outside (reported under their own signature)",
     ]
+    run.regen("sortfacts", ["go", "run", "-C", "extract/sortfacts", "."], "Csvq/Gen/SortFacts.lean")
     run.obligations_for(["Csvq.Props.C07"])
     run.stream("c07", 1800 if q else 16000)
     if not q:
